@@ -8,7 +8,15 @@ pub struct Span { _p: () }
 pub struct Node { _p: () }
 #[verifier::external_body]
 pub struct Chunk { _p: () }
-impl Chunk { #[verifier::external_body] pub fn optimize(&mut self) { unimplemented!() } }
+/// the chunk has been through Chunk::optimize (unit optimize proves what that pass does)
+pub uninterp spec fn is_optimized(c: Chunk) -> bool;
+/// the chunk it was before the pass
+pub uninterp spec fn optimized_of(c: Chunk) -> Chunk;
+pub uninterp spec fn compiled_chunk(name: Name, nodes: Seq<Node>) -> Chunk;
+impl Chunk {
+    #[verifier::external_body]
+    pub fn optimize(&mut self) ensures is_optimized(*final(self)), optimized_of(*final(self)) == *old(self) { unimplemented!() }
+}
 pub type Name = Seq<char>;
 pub type Calls = Map<Name, Seq<Span>>;
 #[verifier::external_body]
@@ -32,6 +40,7 @@ impl Compiler {
     #[verifier::external_body]
     pub fn compile(&mut self, nodes: Vec<Node>)
         ensures
+            final(self).chunk == compiled_chunk(old(self).name@, nodes@),
             calls(final(self).filter_calls) == compiled(old(self).name@, nodes@).filter_calls,
             calls(final(self).test_calls) == compiled(old(self).name@, nodes@).test_calls,
             calls(final(self).function_calls) == compiled(old(self).name@, nodes@).function_calls,
